@@ -142,7 +142,7 @@ def paging_programs(chk, classes, pagingtracer, only=None):
                 last = v
         # the program itself lives in bank 2: paged at 0xC000 its first byte is read back there
         want = (code[0] if last & 7 == 2 else last & 7, 100 + ((last >> 4) & 1), [last & 7])
-        got = (mem.banks[2][RES - 0x8000], mem.banks[2][RES + 1 - 0x8000], [b for b in range(8) if mem.banks[b][1] == MARK])
+        got = (mem.banks[2][RES - 0x8000], mem.banks[2][RES + 1 - 0x8000], [b for b in range(8) if mem.banks[b][1] == MARK and not (b == 2 and code[1] == MARK and last & 7 != 2)])   # bank 2 holds the program: its own byte 1 may equal the marker
         fixed = all(v == 5 for v in mem.banks[5][2:64]) and all(mem.banks[2][i] == 2 for i in range(0x200, 0x240)) \
             and all(v == 100 for v in mem.roms[0][:8]) and all(v == 101 for v in mem.roms[1][:8])
         chk.case(f'paging-prog:{name}', (name, tracer, o0, tuple(ws)), {'impl': name, 'tracer': tracer, 'o7ffd0': o0, 'writes': ws} if len(ws) == 3 and o0 == 0 else None)
